@@ -55,6 +55,27 @@ def pregen():
 NONASCII = ["é", "♠x", "日本", "ß+", "λ", "ü.ö", "→", "𝔸"]
 ACTION_TXT = ["Ok(())", "/* ü♠ */ Ok(1)", "{ let s = \"é\"; Ok(s.len() as u64) }", "$1", "Err(())", "{ /* 日本 */ Ok(0) }"]
 TYPES = ["Result<u64, ()>", "u64", "Vec<String>", "Option<(u8, &'input str)>", "Ré<'a>"]
+# action bodies / programs / comments spanning several lines (rendered with LF, then re-rendered with other line endings)
+ML_ACTION_TXT = ["\n    let x = 1;\n    Ok(x)\n", "// é line comment\n    Ok(())\n", "/* a\n   b ü */ Ok(2)",
+                 "{\n\tlet s = \"a\nb\";\n\tOk(0)\n}", "Ok(\n1\n)", "\n\n$1\n\n", "Err(()) // t\n"]
+ML_PROGRAMS = "// é helper\nfn helper() -> &'static str {\n    \"ü♠\n%s\"\n}\n\n/* block\n   comment */\nfn g() {}\n"
+ML_COMMENTS = ["/* c1\n   c2 é */", "// lc ♠", "/*\n*/", "// a\n// b"]
+
+
+def with_eol(rng, src, eol):
+    """re-render the line ends of an LF source: crlf (Windows), cr (bare CR), mixed (each line end drawn from LF/CRLF/CR),
+    crlf_body (LF everywhere except inside action bodies and the programs section — decided by the caller's markers)"""
+    if eol in (None, "lf"):
+        return src
+    if eol == "crlf":
+        return src.replace("\n", "\r\n")
+    if eol == "cr":
+        return src.replace("\n", "\r")
+    if eol == "mixed":
+        return "".join(rng.choice(["\n", "\r\n", "\r\n", "\r"]) if c == "\n" else c for c in src)
+    if eol == "lfcr":
+        return src.replace("\n", "\n\r")
+    raise ValueError(eol)
 
 
 class Opts:
@@ -70,9 +91,10 @@ class Opts:
         return "".join("1" if getattr(self, k) else "0" for k in self.KEYS)
 
 
-def render_rich(rng, g, kind, o, pad=0):
+def render_rich(rng, g, kind, o, pad=0, multiline=False):
     """yacc source of abstract grammar g for yacc kind `kind` (G/U/O/N/E) with the optional
-    declarations selected by o; returns (source, token rename map)"""
+    declarations selected by o; returns (source, token rename map).  `multiline`: action bodies, the
+    programs section and comments span several lines."""
     ren = {}
     for i, t in enumerate(g.tokens):
         ren[t] = (NONASCII[i % len(NONASCII)] + t) if (o.nonascii and i % 2 == 0) else t
@@ -119,13 +141,21 @@ def render_rich(rng, g, kind, o, pad=0):
             if o.prec and precpool and (prec in precpool or (prec is None and rng.random() < 0.15)):
                 s += " %%prec %s" % q(prec if prec in precpool else rng.choice(precpool))
             if kind in "GU" and (o.actions or kind == "G"):
-                s += " { %s }" % rng.choice(ACTION_TXT)
+                if multiline and rng.random() < 0.75:
+                    s += " {%s}" % rng.choice(ML_ACTION_TXT)
+                else:
+                    s += " { %s }" % rng.choice(ACTION_TXT)
             alts.append(s)
+        if multiline and rng.random() < 0.6:
+            out.append(rng.choice(ML_COMMENTS))
         if kind == "G":
             out.append("%s -> %s: %s;" % (n, rng.choice(TYPES), " | ".join(alts)))
         else:
             out.append("%s: %s;" % (n, " | ".join(alts)))
-    if o.programs:
+    if o.programs and multiline:
+        out.append("%%")
+        out.append(ML_PROGRAMS % ("x" * rng.randint(0, 40)))
+    elif o.programs:
         out.append("%%")
         out.append("fn helper() -> &'static str { \"ü♠ %s\" }" % ("x" * rng.randint(0, 40)))
     return "\n".join(out) + "\n", ren
@@ -148,8 +178,9 @@ def gen_cases(ctx, n_random):
     rng = ctx.rng
     cases = []   # (label, kind, src, rename, gram, inputs)
 
-    def add(label, g, kind, o, pad=0, n_inputs=6):
-        src, ren = render_rich(rng, g, kind, o, pad)
+    def add(label, g, kind, o, pad=0, n_inputs=6, eol=None, multiline=False):
+        src, ren = render_rich(rng, g, kind, o, pad, multiline)
+        src = with_eol(rng, src, eol)
         inputs = [[ren[t] for t in inp] for inp in G.inputs_for(rng, g, n_inputs)]
         cases.append((label, kind, src, o, g, inputs))
 
@@ -167,6 +198,21 @@ def gen_cases(ctx, n_random):
         add("only_" + k, g0, "U", Opts(**{k: True}))
         add("all_but_" + k, g0, "G", Opts(**{x: (x != k) for x in Opts.KEYS}))
         add("all_but_" + k, g0, "U", Opts(**{x: (x != k) for x in Opts.KEYS}))
+    # line endings: multi-line action bodies, a multi-line programs section and comments, rendered with LF, CRLF
+    # (a Windows checkout), bare CR, LF+CR and mixed line ends (text fields must come back byte for byte)
+    with_code = Opts(**{k: True for k in Opts.KEYS})
+    for gi, g in enumerate(corpus):
+        for kind in ("G", "U"):
+            add("eol_lf_multiline", g, kind, with_code, multiline=True)
+            add("eol_crlf", g, kind, with_code, eol="crlf", multiline=True)
+            add("eol_mixed", g, kind, with_code, eol="mixed", multiline=True)
+        add("eol_cr", g, "GU"[gi % 2], with_code, eol="cr", multiline=True)
+        add("eol_lfcr", g, "UG"[gi % 2], with_code, eol="lfcr", multiline=True)
+        add("eol_crlf_single_line", g, "GU"[gi % 2], with_code, eol="crlf")
+        add("eol_crlf", g, "ON"[gi % 2], Opts(programs=True, epp=True, prec=True), eol="crlf", multiline=True)
+    add("eol_crlf", g0, "G", Opts(actions=True), eol="crlf", multiline=True)
+    add("eol_crlf", g0, "U", Opts(programs=True), eol="crlf", multiline=True)
+    add("eol_crlf_pad", g0, "G", with_code, pad=400, eol="crlf", multiline=True)
     # Eco kind with implicit tokens (implicit_rule is Some)
     ge = G.Gram(["a", "b", "w"], [("S", [[('t', 'a'), ('r', 'S')], [('t', 'b')]])], implicit=["w"])
     add("eco_implicit", ge, "E", all_off)
@@ -210,7 +256,9 @@ def gen_cases(ctx, n_random):
             continue
         kind = rng.choice("GGUUON")
         o = Opts(**{k: rng.random() < 0.5 for k in Opts.KEYS})
-        add("random_" + name, g, kind, o, pad=rng.choice([0, 0, 0, 120, 400]))
+        eol = rng.choice([None, None, None, "crlf", "crlf", "mixed", "cr"])
+        add("random_" + name + ("_eol_" + eol if eol else ""), g, kind, o, pad=rng.choice([0, 0, 0, 120, 400]),
+            eol=eol, multiline=rng.random() < 0.5)
         n += 1
     return cases
 
@@ -682,7 +730,9 @@ def differential(ctx, with_model=True):
         "grammars: classic corpus x yacc kinds {Grmtools, Original(UserAction), Original(GenericParseTree), Original(NoAction)} "
         "with all optional declarations present / absent; each declaration alone and each one missing "
         "(actions, %parse-param, %parse-generics, %epp, %avoid_insert, %expect, %expect-rr, %left/%right/%nonassoc + %prec, programs section, "
-        "non-ASCII token names/action text/types, %actiontype); Eco with %implicit_tokens; sources padded beyond 250 and 65535 bytes "
+        "non-ASCII token names/action text/types, %actiontype); corpus x {Grmtools, UserAction} with multi-line action bodies, multi-line programs "
+        "section and multi-line comments under LF / CRLF / bare CR / LF+CR / mixed line ends (and a third of the random grammars); "
+        "Eco with %implicit_tokens; sources padded beyond 250 and 65535 bytes "
         "(spans and lengths in every varint class that can occur); grammars with 64/128/301 tokens and 261 rules; random grammars of the "
         "LR families with random option subsets.  Each x {fix,var} x {u8,u16,u32}.  Inputs: sentences, near-sentences, random strings, "
         "the empty input.  Non-trivial = >= 4 states, an accepted input, and a user-action kind or an optional declaration; distinct by "
